@@ -10,8 +10,11 @@ import re
 import sys
 import time
 
-VERIF = os.path.dirname(os.path.dirname(os.path.abspath(__file__)))
-FINDINGS_FILE = os.path.join(VERIF, "known_findings.json")
+HERE = os.path.dirname(os.path.dirname(os.path.abspath(__file__)))
+# evidence / replays of runs against a scratch copy (seeded changes) go elsewhere so that /verif/evidence always
+# describes /repo itself
+VERIF = os.environ.get("VERIF_OUT") or HERE
+FINDINGS_FILE = os.path.join(HERE, "known_findings.json")
 MAX_VIOLATION_LINES = 8        # distinct signatures reported per run (the rest is counted)
 
 
